@@ -42,6 +42,15 @@ SortInts(s) ==
   ELSE LET m == CHOOSE i \in 1..Len(s) : \A j \in 1..Len(s) : s[i] <= s[j] /\ (s[j] = s[i] => i <= j)
        IN <<s[m]>> \o SortInts(SubSeq(s, 1, m - 1) \o SubSeq(s, m + 1, Len(s)))
 Reversed(s) == [i \in 1..Len(s) |-> s[Len(s) + 1 - i]]
+(* stable sort by descending key (mode "value": the member itself, "parity": member mod 2): repeatedly take the FIRST *)
+(* member with the largest key                                                                                      *)
+SortKey(x, mode) == IF mode = "parity" THEN x % 2 ELSE x
+RECURSIVE StableSortDesc(_, _)
+StableSortDesc(s, mode) ==
+  IF Len(s) <= 1 THEN s
+  ELSE LET m == CHOOSE i \in 1..Len(s) : \A j \in 1..Len(s) :
+                   SortKey(s[i], mode) >= SortKey(s[j], mode) /\ (SortKey(s[j], mode) = SortKey(s[i], mode) => i <= j)
+       IN <<s[m]>> \o StableSortDesc(SubSeq(s, 1, m - 1) \o SubSeq(s, m + 1, Len(s)), mode)
 
 (***************************************************************************)
 (* SEQUENCE OF                                                             *)
@@ -68,6 +77,10 @@ ApplySO(st, op) ==
     [] op.o = "clear" -> Good([schema |-> FALSE, el |-> <<>>], NORET)
     [] op.o = "reset" -> Good(SOInit, NORET)
     [] op.o = "sort" -> IF ~SOIsValue(st) THEN Either(st) ELSE Good([st EXCEPT !.el = SortInts(st.el)], NORET)
+    \* sort(key=parity, reverse=True) and sort(reverse=True): Python's sort is stable also when reversed - members with equal
+    \* keys keep their relative order
+    [] op.o = "sortrev" -> IF ~SOIsValue(st) THEN Either(st) ELSE Good([st EXCEPT !.el = StableSortDesc(st.el, "value")], NORET)
+    [] op.o = "sortparity" -> IF ~SOIsValue(st) THEN Either(st) ELSE Good([st EXCEPT !.el = StableSortDesc(st.el, "parity")], NORET)
     [] op.o = "reverse" -> IF st.schema THEN Either(st) ELSE Good([st EXCEPT !.el = Reversed(st.el)], NORET)
     \* readers
     [] op.o = "len" -> Good(st, n)
